@@ -316,6 +316,25 @@ def valid_cases(rng, n, big):
     return cases
 
 
+def huge_cases():
+    """deterministic, every run: single frames around and above 1 MiB of payload (64-bit length form)
+    between two small frames -- every frame length is legal for a data frame (RFC 6455 5.2), and an RFB
+    client may put a maximum-size ClientCutText (8 + 2^20 bytes) into one frame"""
+    cases = []
+    for i, (n, text) in enumerate([(2 ** 20 - 1, False), (2 ** 20, False), (2 ** 20 + 1, False), (2 ** 20 + 8, False),
+                                   (2 ** 20 + 9, False), (2 ** 21 + 5, False), (786432 + 6, True), (2 ** 20 + 8, True)]):
+        data = hashlib.sha256(b"huge-%d" % i).digest() * (n // 32 + 1)
+        data = data[:n]
+        op = 1 if text else 2
+        enc = (lambda x: base64.b64encode(x)) if text else (lambda x: x)
+        wire = (mk_frame(op, enc(b"before"), mask=b"\x01\x02\x03\x04") +
+                mk_frame(op, enc(data), mask=bytes([0x5a, i, 0xc3, 0x0f])) +
+                mk_frame(op, enc(b"after"), mask=b"\x00\x00\x00\x00"))
+        sched = [[], ["2055", "*"], ["1448", "*"], ["65536", "*"]][i % 4]
+        cases.append({"kind": "valid-huge", "wire": wire, "sched": sched, "lens": ["1048584" if i % 2 else "100000"]})
+    return cases
+
+
 def strict_cases(rng, n):
     cases = []
     for _ in range(n):
@@ -844,6 +863,208 @@ def e2e_script(rng):
                                    "stream_len": len(full)}
 
 
+def ws_request(b64, tag):
+    key = base64.b64encode(hashlib.sha1(tag).digest()[:16]).decode()
+    return ("GET /vnc HTTP/1.1\r\nHost: h\r\nOrigin: http://h\r\nSec-WebSocket-Key: %s\r\n"
+            "Sec-WebSocket-Version: 13\r\nSec-WebSocket-Protocol: %s\r\n\r\n" % (key, "base64" if b64 else "binary")).encode()
+
+
+def fnv(t):
+    h = 1469598103934665603
+    for b in t:
+        h = ((h ^ b) * 1099511628211) & (2 ** 64 - 1)
+    return h
+
+
+def e2e_bigcut_scripts():
+    """deterministic, every run: a ClientCutText of the maximum size rfbserver.c accepts (2^20 bytes,
+    message = 8 + 2^20 bytes) and its neighbours, the whole RFB message in ONE WebSocket frame"""
+    out = []
+    for i, (n, b64) in enumerate([(2 ** 20, False), (2 ** 20 - 7, False), (2 ** 20 - 8, False), (2 ** 20, True)]):
+        t = (hashlib.sha256(b"cut-%d" % i).hexdigest().encode() * (n // 64 + 1))[:n]
+        pre = bytes([1, 1]) + bytes([2, 0]) + struct.pack(">H", 1) + struct.pack(">i", 0)
+        cut = struct.pack(">BBHI", 6, 0, 0, n) + t
+        post = struct.pack(">BBHI", 4, 1, 0, 0x61) + struct.pack(">BBHHHH", 3, 0, 0, 0, 64, 48)
+        stream = pre + cut + post
+        ev = ["c%d:%016x" % (n, fnv(t)), "k1:97"]
+        enc = (lambda x: base64.b64encode(x)) if b64 else (lambda x: x)
+        op = 1 if b64 else 2
+        frames = [mk_frame(op, enc(b"RFB 003.008\n"), mask=b"\1\2\3\4"), mk_frame(op, enc(pre), mask=b"\x11\x22\x33\x44"),
+                  mk_frame(op, enc(cut), mask=bytes([0xa5, i, 0x3c, 0x99])), mk_frame(op, enc(post), mask=b"\0\0\0\0")]
+        wire = b"".join(frames)
+        segs = [wire[j:j + 60000] for j in range(0, len(wire), 60000)]
+        tsegs = [stream[j:j + 60000] for j in range(0, len(stream), 60000)]
+        ls = ["conn 0 tcp"] + ["seg 0 " + x.hex() for x in tsegs] + ["pump 0", "scut 40000 7", "pump 0", "close 0",
+              "conn 1 ws " + ws_request(b64, b"bigcut-%d" % i).hex()]
+        ls += ["seg 1 " + x.hex() for x in segs]
+        ls += ["pump 1", "scut 40000 7", "pump 1", "close 1"]
+        out.append(("\n".join(ls) + "\n", {"b64": b64, "ev": ev, "nseg": len(segs), "rs": None, "nframes": len(frames),
+                                            "stream_len": len(stream) + 12, "det": "bigcut %d bytes in one %s frame" % (n, "text" if b64 else "binary")}))
+    return out
+
+
+def hostile_first_scripts():
+    """deterministic, every run: a context created by the REAL upgrade handshake, and the first
+    non-control frame of the connection is a CONTINUATION frame (RFC 6455 5.4: nothing to continue):
+    the connection must end there and nothing the client sends may reach the RFB layer.  Control group:
+    control frames first, then a proper data frame -- the session works."""
+    conv = b"RFB 003.008\n" + bytes([1, 1]) + struct.pack(">BBHI", 4, 1, 0, 0x61) + struct.pack(">BBHI", 4, 0, 0, 0x61)
+    out = []
+    for b64 in (False, True):
+        enc = (lambda x: base64.b64encode(x)) if b64 else (lambda x: x)
+        op = 1 if b64 else 2
+        ping, pong, ping125 = mk_frame(9, b"hi", mask=b"\5\6\7\x08"), mk_frame(10, b"", mask=b"\x09\x08\x07\x06"), mk_frame(9, bytes(range(125)), mask=b"\xff\0\xff\0")
+        good = [mk_frame(op, enc(conv), mask=b"\x31\x41\x59\x26")]
+        good2 = [mk_frame(op, enc(conv[:12]), mask=b"\1\2\3\4"), mk_frame(op, enc(conv[12:]), mask=b"\4\3\2\1")]
+        variants = [
+            ("cont-fin-first", [mk_frame(0, enc(conv[:12]), fin=1, mask=b"\x10\x20\x30\x40")], good, False),
+            ("cont-empty-first", [mk_frame(0, b"", fin=1, mask=b"\1\1\1\1")], good, False),
+            ("cont-nofin-first", [mk_frame(0, enc(conv[:12]), fin=0, mask=b"\7\7\7\7"), mk_frame(0, enc(conv[12:14]), fin=1, mask=b"\x08\x08\x08\x08")], good2, False),
+            ("cont-whole-conversation", [mk_frame(0, enc(conv), fin=1, mask=b"\x0a\x0b\x0c\x0d")], good, False),
+            ("ping-then-cont", [ping, mk_frame(0, enc(conv[:12]), fin=1, mask=b"\x10\x20\x30\x40")], good, False),
+            ("pong-ping-then-cont", [pong, ping125, mk_frame(0, enc(conv[:12]), fin=0, mask=b"\x10\x20\x30\x40")], good2, False),
+            ("ping-then-data", [ping], good, True),
+            ("pong-ping-then-data", [pong, ping125], good2, True),
+        ]
+        for name, bad, rest, ok in variants:
+            wire = b"".join(bad + rest)
+            for segstyle in ("one", "frames"):
+                segs = [wire] if segstyle == "one" else [b"".join(bad)] + [b"".join(rest)]
+                ls = ["conn 1 ws " + ws_request(b64, b"hostile-" + name.encode()).hex()] + ["seg 1 " + x.hex() for x in segs] + ["pump 1", "close 1"]
+                out.append(("\n".join(ls) + "\n", {"b64": b64, "name": name, "ok": ok, "seg": segstyle}))
+    return out
+
+
+def oracle_hostile(script, impl, meta):
+    ops = script.splitlines()
+    if len(impl) != len(ops):
+        return "hostile-first: %d observations for %d ops" % (len(impl), len(ops))
+    if not impl[0].startswith("conn ok") or ("ws=1 b64=%d" % int(meta["b64"])) not in impl[0]:
+        return "hostile-first: WebSocket handshake result %r" % impl[0]
+    pl = [l for l in impl if l.startswith("pump ")]
+    f = dict(x.split("=", 1) for x in pl[0].split()[1:])
+    raw = bytes.fromhex(f["out"]) if f["out"] != "-" else b""
+    he = raw.find(b"\r\n\r\n")
+    try:
+        data = deframe_server(raw[he + 4:], meta["b64"]) if he >= 0 else None
+    except ValueError as ex:
+        return "hostile-first: server output is not a valid frame sequence: %s" % ex
+    if meta["ok"]:
+        if f["alive"] != "1" or f["ev"] != "k1:97,k0:97":
+            return ("control frames before the first data frame (%s): session did not work (alive=%s, events %s)"
+                    % (meta["name"], f["alive"], f["ev"]))
+        return None
+    if f["ev"] != "-":
+        return ("CONTINUATION frame before any data frame (%s, on the context the real handshake created): bytes of the "
+                "client reached the RFB layer afterwards (events %s)" % (meta["name"], f["ev"]))
+    if f["alive"] != "0":
+        return ("CONTINUATION frame before any data frame (%s, on the context the real handshake created): the connection "
+                "was not ended (the frame was swallowed)" % meta["name"])
+    if data is not None and data != b"RFB 003.008\n":
+        return ("CONTINUATION frame before any data frame (%s): the server went on with the RFB handshake (%d bytes sent "
+                "after its version string)" % (meta["name"], len(data) - 12))
+    return None
+
+
+THR_MARK = 0xfffe
+
+
+def thr_cases(rng):
+    """the same RFB conversation over plain TCP and over WebSocket, served by the THREADED loop, with
+    frame boundaries chosen so that in every protocol state (version, security type, authentication,
+    initialisation, normal) one frame carries the end of that state's message and what follows"""
+    out = []
+    for auth in (0, 1):
+        msgs = [b"RFB 003.008\n", bytes([2 if auth else 1])]
+        if auth:
+            msgs.append(b"0123456789abcdef")
+        msgs.append(bytes([1]))
+        ev = []
+        msgs.append(bytes([2, 0]) + struct.pack(">H", 1) + struct.pack(">i", 0))
+        for j in range(10):
+            r = rng.random()
+            if r < 0.4:
+                down, key = rng.randrange(2), rng.choice([0x61, 0xff0d, 0x20ac])
+                msgs.append(struct.pack(">BBHI", 4, down, 0, key)); ev.append("k%d:%d" % (down, key))
+            elif r < 0.8:
+                m, x, y = rng.randrange(256), rng.randrange(64), rng.randrange(48)
+                msgs.append(struct.pack(">BBHH", 5, m, x, y)); ev.append("p%d:%d:%d" % (m, x, y))
+            else:
+                n = rng.choice([0, 5, 126, 2100, 5000])
+                t = bytes(0x20 + rng.randrange(95) for _ in range(n))
+                msgs.append(struct.pack(">BBHI", 6, 0, 0, n) + t); ev.append("c%d:%016x" % (n, fnv(t)))
+        msgs.append(struct.pack(">BBHI", 4, 0, 0, THR_MARK)); ev.append("k0:%d" % THR_MARK)
+        full = b"".join(msgs)
+        offs = [0]
+        for m in msgs:
+            offs.append(offs[-1] + len(m))
+        hs = 4 if auth else 3            # number of handshake-phase messages
+        def at(idxs):                    # frame boundaries in front of the messages idxs
+            cuts = sorted(set(offs[i] for i in idxs if 0 < i < len(msgs)))
+            return [full[a:b] for a, b in zip([0] + cuts, cuts + [len(full)])]
+        groupings = [
+            ("all-in-one", [full]),
+            ("per-message", at(range(1, len(msgs)))),
+            ("sectype+%sinit" % ("auth+" if auth else ""), at([1, hs])),
+            ("version+sectype", at([2])),
+            ("handshake-joint", at([hs] + list(range(hs + 2, len(msgs), 2)))),
+            ("init+messages", at([1, 2] + ([3] if auth else []) + [hs + 3])),
+            ("mid-message", [full[:5], full[5:offs[hs] + 3], full[offs[hs] + 3:]]),
+        ]
+        if auth:
+            groupings.append(("auth+init", at([1, 2, 4])))
+            groupings.append(("sectype+auth", at([1, 3])))
+        for _ in range(2):
+            groupings.append(("random-boundaries", at(sorted(rng.sample(range(1, len(msgs)), rng.randrange(1, 5))))))
+        cuts = sorted(rng.sample(range(1, len(full)), 3))
+        groupings.append(("random-bytes", [full[a:b] for a, b in zip([0] + cuts, cuts + [len(full)])]))
+        tcp = "thr tcp %d %d 6000 %s %s" % (auth, THR_MARK, full[:12].hex(), full[12:].hex())
+        for gi, (name, chunks) in enumerate(groupings):
+            b64 = (gi + auth) % 3 == 1
+            enc = (lambda x: base64.b64encode(x)) if b64 else (lambda x: x)
+            frames = [mk_frame(1 if b64 else 2, enc(c), mask=rnd_mask(rng)) for c in chunks if c]
+            wsop = "thr ws %d %d 6000 %s %s" % (auth, THR_MARK, ws_request(b64, b"thr-%d-%d" % (auth, gi)).hex(), " ".join(f.hex() for f in frames))
+            out.append({"tcp": tcp, "ws": wsop, "auth": auth, "b64": b64, "name": name, "ev": ev,
+                        "frames": [len(c) for c in chunks if c]})
+    return out
+
+
+def thr_fields(ob):
+    return dict(x.split("=", 1) for x in ob.split()[1:] if "=" in x)
+
+
+def oracle_thr(case, ws_ob, tcp_ob):
+    what = "threaded loop, %s, frames of %s RFB bytes (%s, %s)" % (case["name"], case["frames"], "VNC auth" if case["auth"] else "no auth",
+                                                                  "base64" if case["b64"] else "binary")
+    t, w = thr_fields(tcp_ob), thr_fields(ws_ob)
+    want = ",".join(case["ev"])
+    if t.get("conn") != "ok" or t.get("done") != "1" or t.get("ev") != want:
+        return "%s: the reference run over plain TCP did not complete (%s)" % (what, tcp_ob[:200])
+    if w.get("conn") != "ok" or w.get("ws") != "1" or w.get("b64") != str(int(case["b64"])):
+        return "%s: WebSocket handshake result %r" % (what, ws_ob[:200])
+    if w.get("done") != "1":
+        got = w.get("ev", "-")
+        return ("%s: over WebSocket the conversation %s after %d of %d events (plain TCP: complete) -- RFB bytes of an already "
+                "decoded frame were left in the decode buffer" % (what, "was closed" if w.get("closed") == "1" else "stalled (6 s)",
+                                                                0 if got == "-" else len(got.split(",")), len(case["ev"])))
+    if w.get("ev") != want:
+        return "%s: RFB layer saw different events over WebSocket than were sent" % what
+    raw = bytes.fromhex(w["out"]) if w.get("out", "-") != "-" else b""
+    he = raw.find(b"\r\n\r\n")
+    if he < 0:
+        return "%s: no handshake response" % what
+    try:
+        data = deframe_server(raw[he + 4:], case["b64"])
+    except ValueError as ex:
+        return "%s: server output is not a valid unmasked frame sequence: %s" % (what, ex)
+    ref = bytes.fromhex(t["out"]) if t.get("out", "-") != "-" else b""
+    if case["auth"]:            # the 16 challenge bytes are random per connection
+        data, ref = data[:14] + data[30:], ref[:14] + ref[30:]
+    if data != ref:
+        return "%s: server stream over WebSocket (%d bytes) differs from plain TCP (%d bytes)" % (what, len(data), len(ref))
+    return None
+
+
 def peek_cases():
     """webSocketsCheck / rfbPeekExactTimeout when only 1-3 bytes of the greeting have arrived, for
     the stale errno values the call can inherit; with and without the rest arriving 30 ms later"""
@@ -1011,6 +1232,23 @@ def run(ctx):
                 fails.append({"kind": "oracle", "what": "C09 connection-time peek oracle (replay)", "detail": o,
                               "script": lines, "impl": impl[:2]})
             return {"evaluations": 1, "failures": fails, "samples": [{"script": lines[:3], "impl": impl[:3]}]}
+        if any(l.startswith("thr ") for l in lines):
+            obs = []
+            for l in lines[:2]:
+                rc, impl, err = ctx.run_lines(h, l + "\n", timeout=120)
+                obs.append(impl[0] if (rc == 0 and impl) else "thr harness-exit=%d" % rc)
+            o = oracle_thr(rec["thr_case"], obs[1], obs[0]) if len(obs) == 2 else "bad replay record"
+            if o:
+                fails.append({"kind": "oracle", "what": "C09 threaded-loop transparency oracle (replay)", "detail": o,
+                              "script": lines, "impl": [x[:600] for x in obs], "thr_case": rec["thr_case"]})
+            return {"evaluations": 1, "failures": fails, "samples": [{"script": [l[:200] for l in lines]}]}
+        if rec.get("hostile_meta"):
+            rc, impl, err = ctx.run_lines(h, script, timeout=120)
+            o = ("harness exit %d" % rc) if rc != 0 else oracle_hostile(script, impl, rec["hostile_meta"])
+            if o:
+                fails.append({"kind": "oracle", "what": "C09 first-frame strictness oracle (real handshake) (replay)", "detail": o,
+                              "script": lines, "impl": [x[:400] for x in impl], "hostile_meta": rec["hostile_meta"]})
+            return {"evaluations": 1, "failures": fails, "samples": [{"script": [l[:200] for l in lines]}]}
         if any(l.startswith("conn ") for l in lines):          # end-to-end script: harness + oracle only
             rc, impl, err = ctx.run_lines(h, script, timeout=900)
             if rc != 0:
@@ -1060,6 +1298,7 @@ def run(ctx):
     cases += header_split_cases(rng, ctx.tier)
     cases += valid_cases(rng, 700 if quick else 6000, big=False)
     cases += valid_cases(rng, 24 if quick else 250, big=True)
+    cases += huge_cases()
     cases += strict_cases(rng, 300 if quick else 2500)
     cases += fault_cases(rng, 150 if quick else 1500)
     cases += misc_cases(rng, 200 if quick else 2000)
@@ -1158,7 +1397,7 @@ def run(ctx):
             nontrivial.add(op[:200])
 
     # ---- end to end: same RFB script over TCP and over WebSocket
-    e2e = [e2e_script(rng) for _ in range(30 if quick else 300)]
+    e2e = e2e_bigcut_scripts() + [e2e_script(rng) for _ in range(30 if quick else 300)]
 
     def run_e(sm):
         rc, impl, err = ctx.run_lines(h, sm[0], timeout=900)
@@ -1174,12 +1413,54 @@ def run(ctx):
         if o:
             fails.append({"kind": "oracle", "what": "C09 end-to-end oracle", "detail": o,
                           "script": script.splitlines(), "impl": [x[:400] for x in impl],
-                          "finding": "ws-header-split" if (meta["nseg"] > 1 or meta["rs"]) else None})
-        key = "%s/%s" % ("base64" if meta["b64"] else "binary", "rs" if meta["rs"] else "nors")
+                          "finding": "ws-header-split" if ((meta["nseg"] > 1 or meta["rs"]) and "det" not in meta) else None})
+        key = "%s/%s" % ("base64" if meta["b64"] else "binary", "bigcut" if "det" in meta else ("rs" if meta["rs"] else "nors"))
         dist["e2e"][key] = dist["e2e"].get(key, 0) + 1
         nontrivial.add(script[:300])
         if len(samples) < 6:
             samples.append({"script": [l[:200] for l in script.splitlines()][:12], "impl": [x[:200] for x in impl][:12]})
+
+    # ---- hostile first frames on the context the real handshake created
+    hostile = hostile_first_scripts()
+    dist["e2e"]["hostile-first"] = 0
+    for (script, meta), (rc, impl, err) in zip(hostile, common.pmap(run_e, hostile)):
+        evals += 1
+        dist["e2e"]["hostile-first"] += 1
+        if rc != 0:
+            fails.append({"kind": "crash", "what": "ws.hostile-first: harness exit %d" % rc, "script": script.splitlines(),
+                          "impl": [x[:300] for x in impl[-5:]], "detail": err})
+            continue
+        o = oracle_hostile(script, impl, meta)
+        if o and sum(1 for f in fails if f.get("what", "").startswith("C09 first-frame")) < 3:
+            fails.append({"kind": "oracle", "what": "C09 first-frame strictness oracle (real handshake)", "detail": o,
+                          "script": script.splitlines(), "impl": [x[:400] for x in impl], "hostile_meta": meta})
+        nontrivial.add(script[:400])
+
+    # ---- threaded loop: TCP vs WebSocket, several messages per frame in every protocol state
+    thr = thr_cases(rng)
+    tcp_ref = {}
+
+    def run_t(op):
+        return ctx.run_lines(h, op + "\n", timeout=120)
+
+    tcp_ops = sorted(set(c["tcp"] for c in thr))
+    for op, (rc, impl, err) in zip(tcp_ops, common.pmap(run_t, tcp_ops, workers=2)):
+        tcp_ref[op] = (rc, impl[0] if impl else "", err)
+    dist["e2e"]["threaded"] = 0
+    for c, (rc, impl, err) in zip(thr, common.pmap(run_t, [c["ws"] for c in thr], workers=4)):
+        evals += 1
+        dist["e2e"]["threaded"] += 1
+        trc, tob, terr = tcp_ref[c["tcp"]]
+        if rc != 0 or trc != 0:
+            fails.append({"kind": "crash", "what": "ws.threaded: harness exit %d/%d" % (rc, trc), "script": [c["tcp"][:2000], c["ws"][:4000]],
+                          "detail": err or terr})
+            continue
+        o = oracle_thr(c, impl[0] if impl else "", tob)
+        if o and sum(1 for f in fails if f.get("what", "").startswith("C09 threaded")) < 3:
+            fails.append({"kind": "oracle", "what": "C09 threaded-loop transparency oracle", "detail": o,
+                          "script": [c["tcp"], c["ws"]], "impl": [tob[:600], (impl[0] if impl else "")[:600]],
+                          "thr_case": {k: c[k] for k in ("auth", "b64", "name", "ev", "frames")}})
+        nontrivial.add(c["ws"][:400])
 
     # ---- partial greeting at connection time (webSocketsCheck / rfbPeekExactTimeout)
     pk = corpus_pk + peek_cases()
